@@ -57,15 +57,15 @@ fn k_exd_cell_float32_off%d() {
 }
 ''' % (tier, off, off, off, be))
     out.append('''
-//@unit props=C05 label=S tier=%s fn=exd::EXD::read_column bound="column type Bool at column offset %d in a 24-byte row; stored byte 0 or 1, every other byte symbolic"
-//@desc the cell is false for a stored byte 0 and true for a stored byte 1, whatever bytes follow it
+//@unit props=C05 label=S tier=%s fn=exd::EXD::read_column bound="column type Bool at column offset %d in a 24-byte row, all contents"
+//@desc the cell is false for a stored byte 0 and true for every other stored byte (the reference decoders - SaintCoinach, Lumina - read a whole-byte boolean as byte != 0), whatever bytes follow it
 #[kani::proof]
 #[kani::unwind(26)]
 fn k_exd_cell_bool_off%d() {
     let arr: [u8; 24] = kani::any();
-    kani::assume(arr[%d] <= 1);
+    let _ = %d;
     match cell(&arr, ColumnDataType::Bool, %d) {
-        Some(ColumnData::Bool(v)) => assert!(v == (arr[%d] == 1), "boolean cell equals the one stored byte"),
+        Some(ColumnData::Bool(v)) => assert!(v == (arr[%d] != 0), "boolean cell = (the one stored byte != 0)"),
         _ => assert!(false, "cell of the declared type"),
     }
     kani::cover!(true, "reachable");
